@@ -113,6 +113,68 @@ def rendered_type(kind, v):
     return None
 
 
+def setter_histories(ctx, res, rng):
+    """trees built with the property setters (component.DTSTART = v, .start, .end, .DUE, .DTEND), the same property set
+    several times with values of different kinds: after serialise + parse every property a setter wrote holds exactly
+    the last value supplied, with that value's own TZID / VALUE and nothing inherited from the value it replaced"""
+    import icalendar
+    zones = ["Europe/Berlin", "America/New_York", "Asia/Tokyo"]
+
+    def value():
+        dt = datetime(rng.randrange(1995, 2035), rng.randrange(1, 13), rng.randrange(1, 28), rng.randrange(24), rng.randrange(60))
+        k = rng.choice(["naive", "date", "utc", "zoned", "zoned"])
+        if k == "date":
+            return dt.date(), k
+        if k == "utc":
+            return dt.replace(tzinfo=timezone.utc), k
+        if k == "zoned":
+            return dt.replace(tzinfo=zi(rng.choice(zones))), k
+        return dt, k
+    attrs = {"Event": [("DTSTART", "DTSTART"), ("DTEND", "DTEND"), ("start", "DTSTART"), ("end", "DTEND")],
+             "Todo": [("DTSTART", "DTSTART"), ("DUE", "DUE"), ("start", "DTSTART"), ("end", "DUE")],
+             "Journal": [("DTSTART", "DTSTART"), ("start", "DTSTART")]}
+    for _ in range(1500 if ctx.big else 150 * (1 + 3 * ctx.level)):
+        cname = rng.choice(list(attrs))
+        comp = getattr(icalendar, cname)()
+        comp.add("uid", "setters")
+        last, hist = {}, []
+        for _k in range(rng.randrange(2, 6)):
+            attr, name = rng.choice(attrs[cname])
+            v, kind = value()
+            try:
+                setattr(comp, attr, v)
+            except (ValueError, TypeError):
+                hist.append([attr, repr(v), "refused"])
+                continue
+            hist.append([attr, repr(v)])
+            last[name] = (v, kind)
+        cal = icalendar.Calendar()
+        cal.add_component(comp)
+        text = T.impl_ser(cal)
+        res.evaluations += 1
+        res.dist("setter history (%s)" % cname)
+        if not isinstance(text, str):
+            res.fail("C02 setters: serialising a component built with property setters raised", hist, observed=repr(text))
+            continue
+        try:
+            back = icalendar.Calendar.from_ical(text).subcomponents[0]
+        except Exception as e:  # noqa: BLE001
+            res.fail("C02 setters: the serialisation of a component built with property setters is refused", hist, observed=type(e).__name__)
+            continue
+        for name, (v, kind) in last.items():
+            if name not in comp:
+                continue                    # removed again by a later setter of a mutually exclusive property (C16)
+            g = back.get(name)
+            ok = g is not None and not isinstance(g, list) and decoded_equal(kind, v, g)
+            tzid = None if g is None or isinstance(g, list) else g.params.get("TZID")
+            want_tzid = getattr(v.tzinfo, "key", None) if kind == "zoned" else None
+            vparam = None if g is None or isinstance(g, list) else g.params.get("VALUE")
+            if not ok or tzid != want_tzid or (kind == "date") != (str(vparam).upper() == "DATE"):
+                res.fail("C02 setters: after serialise + parse a property does not hold the last value supplied through its "
+                         "setter with that value's own TZID / VALUE", {"history": hist, "property": name, "text": text[:500]},
+                         observed=[repr(getattr(g, "dt", g)), tzid, vparam], expected=[repr(v), want_tzid, "DATE" if kind == "date" else None])
+
+
 def run(ctx, res):
     import icalendar
     M = ctx.model
@@ -259,6 +321,7 @@ def run(ctx, res):
         for nm, m in zip(names, M.batch([("type_key", nm) for nm in names])):
             key = types_factory.types_map.get(nm, "text")
             res.corr("TypesFactory.for_property", nm, [key, types_factory[key].__name__], m)
+    setter_histories(ctx, res, common.rng_for(ctx.seed, "c02-setters"))
     res.sample({"calendar": text[:500]})
 
 
